@@ -171,6 +171,17 @@ int main(int argc, char** argv)
                     auto ss = G(flatS), fs = G(flat);
                     if (E.want() && rank == 0) { vh::Case c("C03", "matT"); c.i(tap); header(c, fc, offx); put_all(c, ss); put_all(c, fs); c.write(E.out); }
                     delete R;
+                    // the same rows as patterns only (has_vals = false): the owner's row is the union of the contributed columns
+                    snprintf(buf, 96, "matT/%s/pattern", tap == 2 ? "tap2" : tap ? "tap" : "std"); AB(buf);
+                    std::vector<double> none;
+                    CSRMatrix* Rp = comm->communicate_T(rowptr, cols, none, ln, 1, 1, false);
+                    std::vector<long long> flatSp = { onx }; for (int j = 0; j < onx; j++) { flatSp.push_back(rowptr[j + 1] - rowptr[j]); for (int k = rowptr[j]; k < rowptr[j + 1]; k++) { flatSp.push_back(cols[k]); flatSp.push_back(0); } }
+                    std::vector<long long> flatp = { Rp->n_rows };
+                    for (int i = 0; i < Rp->n_rows; i++) { flatp.push_back(Rp->idx1[i + 1] - Rp->idx1[i]);
+                        for (int k = Rp->idx1[i]; k < Rp->idx1[i + 1]; k++) { flatp.push_back(Rp->idx2[k]); flatp.push_back(0); } }
+                    auto ssp = G(flatSp), fsp = G(flatp);
+                    if (E.want() && rank == 0) { vh::Case c("C03", "matTp"); c.i(tap); header(c, fc, offx); put_all(c, ssp); put_all(c, fsp); c.write(E.out); }
+                    delete Rp;
                 }
                 delete A; delete Ac;
             }
